@@ -1,3 +1,110 @@
-import GoagModel.JsonModel
+import GoagModel.Props.C07
+/-
+  C18 — the part of "a $ref behaves like the component it points to" that the JSON codec model
+  can carry: inside an allOf, a member given by reference becomes an EMBEDDED struct in the
+  generated Go type, while its inline copy is FLATTENED into the composite's own fields. The two
+  generated types differ; what goes over the wire must not. For every member schema (an object
+  without additionalProperties), every list of further members and every value:
+
+  * `allOf_ref_encodes_like_inline`: the embedded form `obj fs :: vs` and the flattened form
+    `fs ++ vs` encode to the same JSON members;
+  * `allOf_ref_decodes_like_inline`: every document decodes under both forms or under neither,
+    with the same error, the same left-over keys, and values that correspond by flattening.
+  (An embedded member WITH additionalProperties is the recorded finding KF-C06-embeddedAddl.)
+  The rest of C18 relates two outputs of the whole generator and is validated by the reference /
+  inline corpus, not proved.
+-/
 namespace Goag.JsonM
+
+/-- the property writer consumes exactly one value per declared property -/
+theorem toJFields_append (fields : List (String × Bool × Schema)) (fs vs : List Val)
+    (hlen : fs.length = fields.length) :
+    toJFields fields (fs ++ vs) =
+      (match toJFields fields fs with
+       | .ok (ms, _) => .ok (ms, vs)
+       | .error e => .error e) := by
+  induction fields generalizing fs with
+  | nil =>
+    cases fs with
+    | nil => simp [toJFields]
+    | cons a t => simp at hlen
+  | cons f rest ih =>
+    obtain ⟨name, req, s⟩ := f
+    cases fs with
+    | nil => simp at hlen
+    | cons v vt =>
+      have hl : vt.length = rest.length := by simpa using hlen
+      simp only [List.cons_append]
+      by_cases hv : v = .unset
+      · subst hv
+        rw [toJFields_cons_unset, toJFields_cons_unset]
+        by_cases hreq : req = true
+        · simp [hreq]
+        · simp only [hreq, Bool.false_eq_true, if_false]
+          exact ih vt hl
+      · rw [toJFields_cons_set _ _ _ _ _ _ hv, toJFields_cons_set _ _ _ _ _ _ hv, ih vt hl]
+        cases toJ s v with
+        | error e => cases toJFields rest vt <;> simp
+        | ok j =>
+          cases toJFields rest vt with
+          | error e => simp
+          | ok p => obtain ⟨pm, pr⟩ := p; simp
+
+theorem toJFields_rest_nil (fields : List (String × Bool × Schema)) (fs : List Val) (ms : List (String × J))
+    (rest : List Val) (hlen : fs.length = fields.length) (h : toJFields fields fs = .ok (ms, rest)) : rest = [] := by
+  have := toJFields_append fields fs [] hlen
+  simp only [List.append_nil, h] at this
+  simpa using this
+
+/-- **encode.** -/
+theorem allOf_ref_encodes_like_inline (fields : List (String × Bool × Schema)) (nl : Bool)
+    (ms : List (Bool × Schema)) (fs vs : List Val) (hlen : fs.length = fields.length) :
+    toJMembers ((true, .obj fields none nl) :: ms) (Val.obj fs none :: vs) =
+      toJMembers ((false, .obj fields none nl) :: ms) (fs ++ vs) := by
+  simp only [toJMembers, toJ]
+  rw [toJFields_append fields fs vs hlen]
+  cases hf : toJFields fields fs with
+  | error e => simp
+  | ok p =>
+    obtain ⟨pm, pr⟩ := p
+    have hnil := toJFields_rest_nil fields fs pm pr hlen hf
+    subst hnil
+    simp only [List.isEmpty_nil, Bool.not_true, Bool.false_eq_true, if_false]
+    cases toJMembers ms vs <;> simp
+
+/-- **decode.** -/
+theorem allOf_ref_decodes_like_inline (tbl : LeafDec) (fields : List (String × Bool × Schema)) (nl : Bool)
+    (ms : List (Bool × Schema)) (doc : List (String × J)) :
+    (decodeMembers tbl ((false, .obj fields none nl) :: ms) doc) =
+      (match decodeFields tbl fields doc with
+       | .error e => .error e
+       | .ok (vs, rest) => match decodeMembers tbl ms rest with
+         | .error e => .error e
+         | .ok (more, left) => .ok (vs ++ more, left)) ∧
+    (decodeMembers tbl ((true, .obj fields none nl) :: ms) doc) =
+      (match decodeFields tbl fields doc with
+       | .error e => .error e
+       | .ok (vs, rest) => match decodeMembers tbl ms rest with
+         | .error e => .error e
+         | .ok (more, left) => .ok (Val.obj vs none :: more, left)) := by
+  constructor
+  · simp only [decodeMembers]
+    cases decodeFields tbl fields doc with
+    | error e => rfl
+    | ok p =>
+      obtain ⟨vs, rest⟩ := p
+      simp only
+      cases decodeMembers tbl ms rest with
+      | error e => rfl
+      | ok q => obtain ⟨more, left⟩ := q; rfl
+  · simp only [decodeMembers]
+    cases decodeFields tbl fields doc with
+    | error e => rfl
+    | ok p =>
+      obtain ⟨vs, rest⟩ := p
+      simp only
+      cases decodeMembers tbl ms rest with
+      | error e => rfl
+      | ok q => obtain ⟨more, left⟩ := q; rfl
+
 end Goag.JsonM
